@@ -482,3 +482,19 @@ META = dict(
                  'nondeterministic ties', 'SRS objects are the real ones; only same-SRS paths are executed'],
     trusted_base=['z3 5.1', 'engine/symex.py proxy semantics', 'CPython for concrete sub-computations'],
 )
+
+
+MANIFEST_ENTRY = dict(
+    engine='E1',
+    technique='bounded SMT verification: symbolic execution of mapproxy/grid.py with z3 (LRA/LIA), unsat per path; counterexamples replayed on the real code',
+    design_ref='DESIGN.md 3 C03',
+    text='For every grid of an enumerated family (12 fixed + seeded random definitions) and every level, z3 shows unsat '
+         'for the negation of: point->tile->bbox containment, shared edges of neighbours, flip involution and ground-rectangle '
+         'preservation when the origin switch is offered, affected-tile lists (coverage, row-major from the top, None exactly '
+         'outside, nothing merely touched), closest_level against a reference rule incl. threshold_res, NoTiles conditions and '
+         '_calc_grids for symbolic extents. All points/rectangles/tiles/resolutions within the stated bounds are covered by the '
+         'solver verdict, not sampled. Reachability twins and in-memory canaries guard against vacuity.',
+    note='Python float modelled as exact rationals (round() modelled exactly / by a sound relaxation for 12 digits); grid '
+         'definitions are enumerated, not symbolic; rectangles <= 2.5 tile spans; same-SRS paths only (pyproj is FFI); trusted: z3, '
+         'the proxy semantics of engine/symex.py.',
+)
